@@ -352,6 +352,14 @@ class lodict(odict):
         """
         return super(lodict, self).pop(key.lower(), *default)
 
+    def reorder(self, other):
+        """
+        Make keys of other lowercase then reorder
+        """
+        if isinstance(other, odict) and not isinstance(other, lodict):
+            other = lodict(other)
+        super(lodict, self).reorder(other)
+
     def setdefault(self, key, default=None, kind=None):
         """
         convert key to lower and then
